@@ -723,6 +723,10 @@ def replay_completion(ck, native, prog, l, tg, dflt, what):
     r = nat.get("result", {}) if isinstance(nat, dict) else {}
     if wit2.bad or (isinstance(r, dict) and "parse_error" in r):
         return "undecided"
+    if exp2[0] in ("veccut", "any"):
+        return "ok"             # the table does not constrain this completion (e.g. doubly grouped numeric elements)
+    if exp2[0] == "vec" and any(x[0] in ("numstr", "any") for x in exp2[1]):
+        return "ok"             # quoted / deeper-grouped numeric elements: acceptance is C11's subject or not stated
     if exp2[0] in ("err", "synerr"):
         agree = isinstance(r, dict) and "err" in r and len(r["err"]) == 1
         m = msg_of(exp2)
